@@ -229,7 +229,8 @@ def reflect_cases(raw, seed):
         seen.add(k)
         h = random.Random("%d|%s" % (seed, k))
         g = {"decl": c["decl"], "expect": c["expect"],
-             "opts": {"anchor": h.random() < 0.5, "markForm": h.random() < 0.5, "enumNums": False}}
+             "opts": {"anchor": h.random() < 0.5, "markForm": h.random() < 0.5, "enumNums": False,
+                      "acroName": h.random() < 0.5}}
         out.append(g)
         d = c["decl"]
         if d["kind"] == "enum" and (d["in"] or d["notIn"]):
